@@ -51,11 +51,19 @@ def main():
         out = os.path.join(VERIF, "seeded", mid)
         os.makedirs(out, exist_ok=True)
         shutil.copy(os.path.join(d, "patch.diff"), os.path.join(out, "patch.diff"))
-        shutil.copy(os.path.join(d, "demo.rs"), os.path.join(out, "demo.rs"))
+        demo = open(os.path.join(d, "demo.rs"), encoding="utf-8").read()
+        # demonstrations that name their author's scratch worktree are pointed at /repo (where the patch is applied: git -C /repo apply patch.diff)
+        demo = re.sub(r"/tmp/mut2?-C\d+", "/repo", demo)
+        open(os.path.join(out, "demo.rs"), "w", encoding="utf-8").write(demo)
+        rebased = os.path.exists(os.path.join(d, "patch.orig.diff"))
+        if rebased:
+            shutil.copy(os.path.join(d, "patch.orig.diff"), os.path.join(out, "patch.orig.diff"))
         prop = meta.get("property", mid.split("-")[0])
         note = ""
         if earlier_missed:
             note = "first missed by %s; caught after the check was strengthened (DESIGN.md §15)" % ", ".join(earlier_missed)
+        if rebased:
+            note = (note + "; " if note else "") + "patch.diff was re-based by hand onto the current /repo HEAD after a later fix: commit changed the surrounding lines (author's version: patch.orig.diff) and re-evaluated"
         if prop not in caught and caught:
             note = (note + "; " if note else "") + "the property's own check does not see it, %s does" % ", ".join(caught)
         json.dump({
@@ -63,7 +71,7 @@ def main():
             "why_tests_pass": meta.get("why_tests_pass", ""),
             "what_was_run": {
                 "worktree": "scratch git worktree of /repo under /tmp (removed afterwards), patch applied with git apply",
-                "demonstration": "tests/zz_demo.rs = demo.rs; cargo test --offline --test zz_demo",
+                "demonstration": "tests/zz_demo.rs = demo.rs; cargo test --offline --test zz_demo -- --test-threads=1",
                 "demo_without_change": ev.get("demo_without_change"), "demo_with_change": ev.get("demo_with_change"),
                 "baseline_with_change": base_line,
                 "checks": "MATHCAT_REPO=<worktree> VERIF_SCRATCH=<scratch> VERIF_SEED=0 ./check <id> --tier quick",
